@@ -22,8 +22,13 @@ package main
 // subscribers' sequences and the returned-before relation); the Coq oracle only CHECKS it.
 
 import (
+	"bytes"
 	"encoding/json"
 	"fmt"
+	"io"
+	"os"
+	"os/exec"
+	"path/filepath"
 	"sort"
 	"strings"
 
@@ -364,7 +369,7 @@ func c11RunScript(ctx *core.Ctx, in c11Input, kind string) error {
 	if stats.dropped > 0 {
 		ctx.Sink.Count("obs/op dropped (its Subscribe had not returned)")
 	}
-	ctx.Sink.Add(c)
+	c11Add(ctx, c)
 	return nil
 }
 
@@ -380,7 +385,7 @@ func c11RunConc(ctx *core.Ctx, in c11Input, kind string) error {
 	if r.hang {
 		c.Direct, c.Note = 2, "conc: the goroutines did not finish within 10 s (a call hangs)"
 		c.Coq = ""
-		ctx.Sink.Add(c)
+		c11Add(ctx, c)
 		return nil
 	}
 	calls := make([]string, len(r.calls))
@@ -468,7 +473,7 @@ func c11RunConc(ctx *core.Ctx, in c11Input, kind string) error {
 	if in.Late && len(r.late) > 0 && len(r.late) < len(r.calls) {
 		ctx.Sink.Count("obs/late joiner joined in the middle")
 	}
-	ctx.Sink.Add(c)
+	c11Add(ctx, c)
 	return nil
 }
 
@@ -485,7 +490,7 @@ func c11RunRush(ctx *core.Ctx, in c11Input, kind string) error {
 	ctx.Sink.Count("in/rush mode=" + in.Mode)
 	if r.hang != "" {
 		c.Direct, c.Note = 2, "rush: "+r.hang
-		ctx.Sink.Add(c)
+		c11Add(ctx, c)
 		return nil
 	}
 	late := make([]string, len(r.late))
@@ -497,7 +502,7 @@ func c11RunRush(ctx *core.Ctx, in c11Input, kind string) error {
 	c.Observed = map[string]any{"trials": r.trials, "received_after_close": n}
 	c.Coq = fmt.Sprintf("CRush %d %d %s", in.Subs, in.Bcasts, hx.CoqList(late))
 	ctx.Sink.Extra["rush_trials"] = r.trials + intOf(ctx.Sink.Extra["rush_trials"])
-	ctx.Sink.Add(c)
+	c11Add(ctx, c)
 	return nil
 }
 
@@ -520,7 +525,7 @@ func c11RunDup(ctx *core.Ctx, in c11Input, kind string) error {
 		c.Direct, c.Note = 1, "harness: "+err.Error()
 	}
 	ctx.Sink.Count("kind=dup")
-	ctx.Sink.Add(c)
+	c11Add(ctx, c)
 	return nil
 }
 
@@ -531,7 +536,31 @@ func intOf(v any) int {
 	return 0
 }
 
+// c11Run runs one input. It first leaves the input in the breadcrumb file (read by the
+// supervisor if the process dies) and afterwards attaches recovered panics to the case.
 func c11Run(ctx *core.Ctx, in c11Input, kind string) error {
+	if crumb := os.Getenv("C11_CRUMB"); crumb != "" {
+		_ = os.WriteFile(crumb, hx.MustJSON(in), 0o644)
+	}
+	c11TakePanics()
+	c11Hook = func(c *hx.Case) {
+		if ps := c11TakePanics(); len(ps) > 0 {
+			c.Direct = 2
+			c.Note = strings.TrimSpace(c.Note + " " + strings.Join(ps, "; "))
+		}
+	}
+	return c11RunKind(ctx, in, kind)
+}
+
+// c11Hook is applied to every case just before it is added to the sink.
+var c11Hook = func(c *hx.Case) {}
+
+func c11Add(ctx *core.Ctx, c hx.Case) {
+	c11Hook(&c)
+	ctx.Sink.Add(c)
+}
+
+func c11RunKind(ctx *core.Ctx, in c11Input, kind string) error {
 	switch in.Kind {
 	case "script", "":
 		in.Kind = "script"
@@ -546,20 +575,78 @@ func c11Run(ctx *core.Ctx, in c11Input, kind string) error {
 	return fmt.Errorf("unknown kind %q", in.Kind)
 }
 
+var c11Prop = &core.Prop{
+	Header:   "From Kit Require Import C11.Check.\nOpen Scope Z_scope.",
+	CaseType: "case",
+	CheckFn:  "run_cases",
+	Shard:    60,
+	Gen:      c11Gen,
+	RunInput: func(ctx *core.Ctx, raw json.RawMessage) error {
+		var in c11Input
+		dec := json.NewDecoder(strings.NewReader(string(raw)))
+		if err := dec.Decode(&in); err != nil {
+			return err
+		}
+		return c11Run(ctx, in, "replay")
+	},
+}
+
+// main: the process supervises a copy of itself. The child does the work; if it dies (a panic
+// in one of the broadcaster's own goroutines, a fatal runtime error such as "all goroutines are
+// asleep") the supervisor reports the input that was running as a case of its own, so that the
+// check shows a concrete replay instead of a bare harness failure.
 func main() {
-	core.Main("c11", &core.Prop{
-		Header:   "From Kit Require Import C11.Check.\nOpen Scope Z_scope.",
-		CaseType: "case",
-		CheckFn:  "run_cases",
-		Shard:    60,
-		Gen:      c11Gen,
-		RunInput: func(ctx *core.Ctx, raw json.RawMessage) error {
-			var in c11Input
-			dec := json.NewDecoder(strings.NewReader(string(raw)))
-			if err := dec.Decode(&in); err != nil {
-				return err
-			}
-			return c11Run(ctx, in, "replay")
-		},
-	})
+	if os.Getenv("C11_CHILD") != "" {
+		core.Main("c11", c11Prop)
+		return
+	}
+	out := ""
+	for i, a := range os.Args {
+		if (a == "-out" || a == "--out") && i+1 < len(os.Args) {
+			out = os.Args[i+1]
+		} else if strings.HasPrefix(a, "-out=") || strings.HasPrefix(a, "--out=") {
+			out = a[strings.Index(a, "=")+1:]
+		}
+	}
+	if out == "" {
+		core.Main("c11", c11Prop) // prints the usage error
+		return
+	}
+	_ = os.MkdirAll(out, 0o755)
+	crumb := filepath.Join(out, "current_input.json")
+	_ = os.Remove(crumb)
+	cmd := exec.Command(os.Args[0], os.Args[1:]...)
+	cmd.Env = append(os.Environ(), "C11_CHILD=1", "C11_CRUMB="+crumb)
+	var errbuf bytes.Buffer
+	cmd.Stdout = os.Stdout
+	cmd.Stderr = io.MultiWriter(os.Stderr, &errbuf)
+	err := cmd.Run()
+	raw, rerr := os.ReadFile(crumb)
+	_ = os.Remove(crumb)
+	if err == nil {
+		return
+	}
+	code := 2
+	if ee, ok := err.(*exec.ExitError); ok {
+		code = ee.ExitCode()
+	}
+	if rerr != nil || len(raw) == 0 {
+		os.Exit(code)
+	}
+	first := ""
+	for _, l := range strings.Split(errbuf.String(), "\n") {
+		if strings.HasPrefix(l, "panic:") || strings.HasPrefix(l, "fatal error:") {
+			first = l
+			break
+		}
+	}
+	sink := hx.NewSink(out, c11Prop.Header, c11Prop.CaseType, c11Prop.CheckFn, c11Prop.Shard)
+	sink.Add(hx.Case{Kind: "crash", Input: json.RawMessage(raw), Class: "crash", Direct: 2,
+		Facts: map[string]any{"crash": true},
+		Note:  fmt.Sprintf("the harness process died (exit code %d) while running this input: %s", code, first)})
+	sink.Count("obs/process died while running an input")
+	if ferr := sink.Flush(); ferr != nil {
+		fmt.Fprintln(os.Stderr, ferr)
+		os.Exit(2)
+	}
 }
